@@ -5,7 +5,7 @@ dominates the body allocation in both readers, zero-length frame returns before
 allocation, the four width tables agree per FrameMode, big-endian everywhere,
 one-shot framer == streaming writer.
 """
-from ..core import callee_of, callee_names, is_call_to, exclusive_blocks, fold, receiver_root
+from ..core import callee_of, callee_names, is_call_to, exclusive_blocks, fold, receiver_root, unwrap
 from ..ranges import Ranges, canon, INF
 from ..families import describe
 from ..wire import success_sequences, io_events, fmt_seq, prim_of, widths
@@ -98,7 +98,7 @@ def transport_rules(ctx, RULE):
     P = ctx.P
     ctx.rule(RULE, 'the framed transport (a) gives up its stream halves only in connect (before a new stream is stored), close and take_read_half - a failed or timed-out read leaves the stream in place for the next read; '
              '(b) writes a frame on every successful return of write(), the empty frame included (a tick is a frame); (c) never polls a frame read together with another future in a select: '
-             'read_exact is not cancellation safe, the bytes consumed so far would be lost and the rest of the frame read as new frames', floor=3)
+             'read_exact is not cancellation safe, the bytes consumed so far would be lost and the rest of the frame read as new frames; (d) a timer around a socket read ends the operation when it fires, the read is never tried again on the same stream', floor=3)
     TR = 'edp_client::transport::FramedTransport::'
     allowed = ('connect', 'close', 'take_read_half', 'shutdown', 'disconnect', 'set_stream', 'new')
     n = 0
@@ -150,7 +150,70 @@ def transport_rules(ctx, RULE):
                 n += 1
                 ctx.bad(RULE, '%s:select' % q.split('::{')[0].rsplit('::', 1)[-1], 'a frame read is polled inside a select together with another future: when the other one wins, the partly read frame is dropped and the stream is out of step',
                         ctx.where(XB, bb), key='LOOP:%s:frame-read-in-select' % q.split('::{')[0])
-    return n
+    # (d) a timer around a socket read ends the read: the read is never tried again after the timer fired
+    def _reads_socket(name):
+        if 'AsyncReadExt::read' in name or 'io::util::read_exact' in name or name.endswith('::read_framed'):
+            return True
+        roots = [r for r in (name, name + '::{closure#0}') if r in ctx.F.bodies]
+        for r in P.reachable_from(roots):
+            RB = P.B(r)
+            if RB is not None and any(any('AsyncReadExt::read' in x for x in callee_names(t2)) for b2, t2 in RB.calls()):
+                return True
+        return False
+    n_t = 0
+    for q in sorted(ctx.F.bodies):
+        if ctx.F.bodies[q]['crate'] != 'edp_client' or ctx.F.bodies[q]['kind'] not in ('Fn', 'AssocFn', 'Closure'):
+            continue
+        XB = P.B(q)
+        live = XB.live_blocks()
+        for bb, t in XB.calls():
+            if bb not in live or not any(x.startswith('tokio::time::timeout::timeout') or x == 'tokio::time::timeout' or x.startswith('tokio::time::timeout_at') for x in callee_names(t)) or len(t['args']) < 2:
+                continue
+            fty = (t.get('aty') or ['', ''])[1]
+            o = unwrap(XB.origin(t['args'][1]))[0]
+            src = o[1] if o and o[0] == 'call' and isinstance(o[1], str) else None
+            if o and o[0] == 'agg' and isinstance(o[1], dict) and o[1].get('ak') == 'coroutine':
+                src = o[1].get('def')         # the async fn was spliced in: what is left of the call is its future being built
+            if not (('ReadExact' in fty or 'io::util::read' in fty) or (src and _reads_socket(src))):
+                continue
+            n_t += 1
+            inst = '%s:timeout(%s)' % (q.split('::{')[0].rsplit('::', 1)[-1], (src or fty).rsplit('::', 1)[-1][:40])
+            # where the Elapsed outcome goes
+            el = [l for l in range(len(XB.b['locals'])) if XB.local_ty(l).startswith('core::result::Result<') and XB.local_ty(l).endswith('tokio::time::error::Elapsed>')]
+            arms, unknown = set(), None
+            conv = set()
+            for cb, ct in XB.calls():
+                if cb not in live or not ct['args'] or not any(l in el for l in XB._op_locals(ct['args'][0])):
+                    continue
+                last = (callee_of(ct)[0] or '').rsplit('::', 1)[-1]
+                if last in ('map_err', 'or_else') and not ct['dst'].get('p'):
+                    conv.add(ct['dst']['l'])
+                elif last in ('drop', 'drop_in_place', 'fmt'):
+                    pass
+                else:
+                    unknown = (cb, last)
+            conv |= XB.derived_locals(sorted(conv)) if conv else set()
+            for sb in sorted(live):
+                sd = XB.switch_on_discr(sb)
+                if not sd:
+                    continue
+                l0 = sd[0]['l']
+                if l0 in el and not sd[0].get('p'):
+                    arms.update(b_ for v_, b_ in sd[2] if v_ == 1)
+                    if not any(v_ == 1 for v_, b_ in sd[2]):
+                        arms.add(sd[3])
+                elif l0 in conv and not sd[0].get('p') and (sd[1].startswith('core::ops::control_flow::ControlFlow<') or sd[1].startswith('core::result::Result<')):
+                    arms.update(b_ for v_, b_ in sd[2] if v_ == 1)
+            again = [a for a in sorted(arms) if bb in XB.reachable(a)]
+            if again:
+                ctx.bad(RULE, inst, 'after the timer around this socket read has fired, control can come back to the same read: the read that was abandoned had already taken bytes of the frame from the stream (read_exact is not '
+                        'cancellation safe), the next one starts in the middle of it - this frame and every later one are lost', ctx.where(XB, bb), key='LOOP:%s:read-retried-after-timeout' % q.split('::{')[0])
+            elif unknown is not None or not arms:
+                ctx.undecided(RULE, inst, 'could not follow where the Elapsed outcome of the timer goes (%s)' % (unknown,), ctx.where(XB, bb))
+            else:
+                ctx.ok(RULE, inst, 'when the timer fires the operation ends (the Elapsed arm never leads back to the read)', ctx.where(XB, bb))
+    ctx.anchor(n_t >= 3, 'timers around socket reads (FramedTransport::read, receive_message_from_read_half x2)')
+    return n + n_t
 
 
 def run(ctx):
@@ -191,6 +254,46 @@ def run(ctx):
             else:
                 ctx.bad('C05.2-read-result-used', inst, 'result of the read is never inspected: a short stream would be treated as data', ctx.where(B, bb),
                         key='ERRDISC:%s:%s' % (B.path, m))
+
+    # the frame handed back was read in this call
+    ctx.rule('C05.2-frame-buffer-fresh', 'the buffer a frame body is read into is created in the same call, or - when it outlives the call (a caller\'s buffer, a field) - emptied on every successful way out before anything is '
+             'read into it: a zero-length frame (tick) or any other early success must not leave the previous frame in it', floor=2)
+    n_fb = 0
+    for B in P.all('edp_client'):
+        if B.b['file'] not in READ_FILES:
+            continue
+        bodies_ = []
+        for bb, t, m in read_calls(B):
+            if m != 'read_exact' or len(t['args']) < 2:
+                continue
+            n_fb += 1
+            o = unwrap(B.origin(t['args'][1]))[0]
+            ty_ = (t.get('aty') or ['', ''])[1]
+            persistent = o is not None and o[0] == 'arg'      # a parameter, a captured variable or a field of self: it was there before this call
+            if not persistent:
+                ctx.ok('C05.2-frame-buffer-fresh', '%s:read_exact@%s' % (B.path, describe(B, canon(B, t['args'][1]))[:40]), 'reads into a buffer of this call (or a fixed-size prefix array)', ctx.where(B, bb))
+                continue
+            bodies_.append((bb, t))
+        if not bodies_:
+            continue
+        fills = set(bb for bb, t in bodies_)
+
+        def ev(B_, bb_):
+            t_ = B_.blocks[bb_]['t']
+            if bb_ in fills:
+                return [('f', bb_)]
+            if t_['k'] == 'call' and (callee_of(t_)[0] or '').rsplit('::', 1)[-1] in ('clear', 'truncate') and 'Vec' in (callee_of(t_)[0] or ''):
+                return [('c', bb_)]
+            return []
+        seqs, trunc = success_sequences(B, ev)
+        stale = [s_ for s_ in seqs if not [e for e in s_ if e[0] == 'c'] or [e[0] for e in s_ if e[0] in ('c', 'f')][:1] == ['f']]
+        inst = '%s:persistent-buffer' % B.path
+        if stale:
+            ctx.bad('C05.2-frame-buffer-fresh', inst, '%s reads frame bodies into a buffer that outlives the call and has a successful return on which that buffer is not emptied first (a zero-length frame, for one): '
+                    'the caller is handed the previous frame again' % B.path.split('::{')[0].rsplit('::', 1)[-1], ctx.where(B, sorted(fills)[0]), key='SHAPE:%s:stale-frame-buffer' % B.path.split('::{')[0])
+        else:
+            ctx.ok('C05.2-frame-buffer-fresh', inst, 'every successful return has emptied the buffer before reading into it', ctx.where(B, sorted(fills)[0]))
+    ctx.anchor(n_fb >= 2, 'read_exact of frame bodies / prefixes in the reader files')
 
     ctx.rule('C05.7-write-discipline', 'socket writes in framing.rs / transport.rs / connection.rs use only complete-write primitives (write_all, write_uN, flush); no partial-write API with a hand-written continuation; '
              'a buffering read adaptor is never unwrapped (into_inner) on the read path', floor=6)
